@@ -390,7 +390,7 @@ _MORE = {
     "C01": "Later additions: a third of the histories run with checkpoint.autoReset=latest (the crash oracle skips the documented start of a "
            "group without any checkpoint); transient / final stream ends and rebalances inside the histories (an event is identified by its "
            "seqno: one acknowledgement of either delivery settles it); unit RollbackRestart on the wire: the restart is answered with a "
-           "ROLLBACK and the re-stream may omit the checkpointed seqno - everything above the checkpoint must be delivered again. Round 5: unit TornFile (file backend, child process per history: the last step is a crash inside the file write of a save, leaving an empty file or a prefix; the restart must refuse to start or resume at/before the first unsettled event). Round 7: a quarter of the histories with skipUntil and documents carrying an old CAS among newer ones (dropped, never settled).",
+           "ROLLBACK and the re-stream may omit the checkpointed seqno - everything above the checkpoint must be delivered again. Round 5: unit TornFile (file backend, child process per history: the last step is a crash inside the file write of a save, leaving an empty file or a prefix; the restart must refuse to start or resume at/before the first unsettled event). Round 7: a quarter of the histories with skipUntil and documents carrying an old CAS among newer ones (dropped, never settled). Round 8: a quarter of the histories with a listener that panics on one or two documents before acknowledging them.",
     "C02": "Later additions: histories on the real file backend (every assigned vBucket's last value is in the file; restart resumes from it); "
            "read-only metadata mode through the real Dcp.Start() with injected and file backends, incl. a second session in the same process "
            "after another member advanced the stored checkpoints. Round 5: the collection-aware sequence-number query answers a generated share of the vBucket's high seqno (the plain query, which Load must use, answers the high seqno).",
@@ -400,10 +400,10 @@ _MORE = {
            "every save; unit CouchbaseBackend: real cbMetadata on the simulated node, which rejects a generated subset of ONE save's per-vBucket "
            "writes (the others complete before / after) - after the next undisturbed save every acknowledged position must be on the node. Round 5: failovers and transient stream ends in the save histories (late acknowledgements of the previous history branch). Round 7: rebalances with an explicit save from inside BeforeStreamStop.",
     "C06": "Later additions: transient stream ends (the re-request tuple is judged like every other offset handed out); unit RollbackBranch on the "
-           "wire: after a server-requested rollback every delivered offset carries the vbUUID of the branch named by the second response. Round 6: unit AheadCheckpoint (child process on C15's checkpoint-above scenarios: whatever is requested is the stored tuple or nothing). Round 7: a quarter of the histories start with auto-reset latest on vBuckets that hold events and failed over 0-3 times before.",
-    "C08": 'Later additions: none to the generator before round 5; the executor is shared with C01 RollbackRestart and C06 RollbackBranch. Round 5: Mid (the session starts normally, its stream ends with a transient cause and the re-request inside the running session is answered with the rollback) and Mitig (rollback mitigation on: real OBSERVE_SEQNO polling of the simulated node, everything persisted and reported once, quiet afterwards). Round 7: Immediate (the events follow the success response of the re-request directly, from the node\'s stream-open callback).',
+           "wire: after a server-requested rollback every delivered offset carries the vbUUID of the branch named by the second response. Round 6: unit AheadCheckpoint (child process on C15's checkpoint-above scenarios: whatever is requested is the stored tuple or nothing). Round 7: a quarter of the histories start with auto-reset latest on vBuckets that hold events and failed over 0-3 times before. Round 8: stale events of an older snapshot (below the start of the one announced last).",
+    "C08": 'Later additions: none to the generator before round 5; the executor is shared with C01 RollbackRestart and C06 RollbackBranch. Round 5: Mid (the session starts normally, its stream ends with a transient cause and the re-request inside the running session is answered with the rollback) and Mitig (rollback mitigation on: real OBSERVE_SEQNO polling of the simulated node, everything persisted and reported once, quiet afterwards). Round 7: Immediate (the events follow the success response of the re-request directly, from the node\'s stream-open callback). Round 8: the checkpoint the rollback session leaves behind (saved at its end) is not below F.',
     "C10": "Later additions: leadership is taken through the real handler (stream.NewLeaderElection(...).OnBecomeLeader) with a generated number of "
-           "followers registered before the callback runs. Round 5: unit RegisterRPC (real RPC server and clients on localhost: registrations arrive in a generated order, followers register again; the leader's list - from which the monitor numbers the followers - stays in join order). Round 6: unit Handover (assignments and leader hand-overs on a follower-side service discovery: announcements = assignments with repeats removed); Couchbase unit: swap (an instance document expires while another instance registers within one monitor round). Round 7: relay unit: 0-3 numberings announced on a fresh dynamic membership before the first GetInfo.",
+           "followers registered before the callback runs. Round 5: unit RegisterRPC (real RPC server and clients on localhost: registrations arrive in a generated order, followers register again; the leader's list - from which the monitor numbers the followers - stays in join order). Round 6: unit Handover (assignments and leader hand-overs on a follower-side service discovery: announcements = assignments with repeats removed); Couchbase unit: swap (an instance document expires while another instance registers within one monitor round). Round 7: relay unit: 0-3 numberings announced on a fresh dynamic membership before the first GetInfo. Round 8: the leader unit puts the partition rule on top of the numbering (real discovery object per member, 64 / 128 / 1024 vBuckets).",
     "C11": "Later additions: mode busdelay (real Dcp, bus publications during close / delay / reopen with the configured delay); gate variant of "
            "direct mode (rollback mitigation polling a simulated cluster, an event parked in the gate when the first burst begins). Round 5: unit ReopenHistory (history engine, oracle C11: after every rebalance the live stream set is the whole range of the latest membership; a transient end of a freshly requested stream from inside AfterStreamStart). Round 6: units FollowMembership (executor of C09's StreamFollowsMembership with C11's clause) and CouchbaseSwap. Round 7: reopen histories in which the server ends the last stream for good (finite end / filter empty) while the rebalance closes the others - the client goes on.",
     "C12": "Later additions: rebalances and STREAM_END from inside CloseStream in the histories; a transient end injected from the AfterStreamStart "
@@ -426,8 +426,8 @@ _MORE = {
     "C20": "Later additions: unit CheckpointRead (cbMetadata.Load in a child process against silent / erroring nodes and attribute-less documents); "
            "after every wire case with a late or missing reply no closure of the wrappers may be blocked on a gocbcore goroutine. Round 5: unit SeqNosComplete (64..1024 vBuckets, 1-3 nodes, back-to-back GetVBucketSeqNos calls; the result holds every vBucket with the node's value at the moment of return). Round 6: SeqNosComplete with one node answering TMPFAIL 0-150 ms after the others (the call must fail). Round 7: op OpenStreamAfterRollback (first request answered ROLLBACK, the generated behaviour applies to the re-request).",
     "C03": "Later additions (round 5): unit RebalanceHistory (history engine with oracle C03 and rebalances; 1-3 events delivered on the re-requested streams from inside AfterStreamStart, while the rebalance is still completing).",
-    "C07": "Later additions (round 5): the gate unit feeds every event kind (deletion, expiration, system events, seqno-advanced) and records every kind at the listener. Round 6: the simulated node answers polls that name another vbUUID in OBSERVE_SEQNO's hard-failover form (half of the cases) + directed suffix (the active copy replaced by one on a new branch); unit StartupWakeup (quiet vBucket, checkpoint load slower than the poll interval: the first dispatch must not be lost - F15) and its Fixed replay. Round 7: catch-up positions (stream reopened after a rollback) in the gate unit.",
-    "C09": "Later additions (round 5): unit StreamFollowsMembership (real stream + real discovery object; 2-5 membership events placed idle / while closing / while the reopen is pending / at the start of / inside the reopen through lifecycle callbacks; the live stream set ends up as the partition of the last info). Round 6: events placed while the AfterRebalanceEnd callback of the previous rebalance runs; leader groups report a gap whatever the numbering check says. Round 7: a quarter of the follow cases on the file backend with a file listing every vBucket.",
+    "C07": "Later additions (round 5): the gate unit feeds every event kind (deletion, expiration, system events, seqno-advanced) and records every kind at the listener. Round 6: the simulated node answers polls that name another vbUUID in OBSERVE_SEQNO's hard-failover form (half of the cases) + directed suffix (the active copy replaced by one on a new branch); unit StartupWakeup (quiet vBucket, checkpoint load slower than the poll interval: the first dispatch must not be lost - F15) and its Fixed replay. Round 7: catch-up positions (stream reopened after a rollback) in the gate unit. Round 8: snapshot type bits (memory / disk / checkpoint / history) on the markers of the gate unit.",
+    "C09": "Later additions (round 5): unit StreamFollowsMembership (real stream + real discovery object; 2-5 membership events placed idle / while closing / while the reopen is pending / at the start of / inside the reopen through lifecycle callbacks; the live stream set ends up as the partition of the last info). Round 6: events placed while the AfterRebalanceEnd callback of the previous rebalance runs; leader groups report a gap whatever the numbering check says. Round 7: a quarter of the follow cases on the file backend with a file listing every vBucket. Round 8: unit FollowerTakesAssignments (real RPC server and Handler.Rebalance on the follower; its leader handle is assigned / lost between pushes).",
 }
 for _k, _v in _MORE.items():
     CHECKS[_k]["rule"] += " " + _v
